@@ -620,8 +620,17 @@ def is_rmw_in_place(e):
 
 def is_rmw(e):
     """write whose new content was computed after reading the same cell with no intervening write to the item:
-    Map::update / Item::update, or the same thing spelled load/may_load .. save/remove"""
-    return e.kind == "write" and (e.op == "update" or e.old is not None)
+    Map::update / Item::update, or the same thing spelled load/may_load .. save/remove.  Not one: an `update` whose closure
+    ignores the value it is handed, and a write inside a loop whose read sits outside that loop - from the second iteration
+    on, the write of the iteration before lies between them (the 0/1-iteration summary cannot see that in the terms)."""
+    if e.kind != "write" or getattr(e, "ignores_old", False):
+        return False
+    if e.op != "update" and e.old is None:
+        return False
+    rd = getattr(e, "rd", None)
+    if rd is not None and e.loops and tuple(rd.loops or ())[:len(e.loops)] != tuple(e.loops):
+        return False
+    return True
 
 
 def _ver(st, item):
@@ -736,6 +745,28 @@ def p_smap_remove(eng, st, name, args, site, depth, call):
     return one(st, OK(UNIT))
 
 
+_USED_CACHE = {}
+
+
+def _local_used(body, local):
+    """does any statement or terminator of the MIR body mention local `local` (a closure parameter)?"""
+    import json as _json
+    key = (body.path, local)
+    c = _USED_CACHE
+    if key not in c:
+        pat1, pat2 = '"l": %d,' % local, '"l": %d}' % local
+        used = False
+        for blk in body.blocks:
+            for part in list(blk["stmts"]) + [blk.get("term") or {}]:
+                if part.get("t") == "drop":
+                    continue        # dropping an unused parameter is not looking at it
+                txt = _json.dumps(part)
+                if pat1 in txt or pat2 in txt:
+                    used = True
+        c[key] = used
+    return c[key]
+
+
 def _do_update(eng, st, item, key, closure, height, site, depth, is_item):
     """update(k, f): read, apply f, write iff Ok, return the new value"""
     ver = _ver(st, item)
@@ -755,12 +786,22 @@ def _do_update(eng, st, item, key, closure, height, site, depth, is_item):
         # `may_load(..)?` yields, so that the folded and the unfolded spelling summarise identically
         starts = [(st, ("vfield", ("may_load", item, key, ver), "Ok", "0"))]
     for s, old in starts:
+        # does the closure look at what it is handed?  (a scratch run with a marker in its place; `update(k, |_| cached..)`
+        # overwrites the cell with something computed from an older read)
+        craw = closure
+        n_ = 0
+        while isinstance(craw, tuple) and craw and craw[0] == "ref" and n_ < 8:
+            craw = eng.read_loc(s, craw[1], craw[2])
+            n_ += 1
+        b_ = eng.by_dp.get(craw[1]) if isinstance(craw, tuple) and craw and craw[0] == "closure" else None
+        ignores = b_ is not None and b_.argc >= 2 and not _local_used(b_, 2)
         for s2, r in eng.call_value(s, closure, [old], site, depth):
             for s3, n, p in eng.force_enum(s2, r, RESULT, site):
                 if n == "Ok":
                     newv = eng.val(s3, p[0])
                     w = _eff(s3, "write", item=item, key=key, op="update", value=newv, old=old, extra=height, site=site)
                     w.rd = rd
+                    w.ignores_old = ignores
                     _bump(s3, item)
                     out.append((s3, OK(newv)))
                 else:
